@@ -118,11 +118,44 @@ def units(tier, seed):
     for cfg in pool_cfgs:
         us.append(("pool", cfg[0], cfg[1], cfg[2], (cfg[3], reps), tier,
                    seed))
+    # early termination by max_time under a virtual clock (every call of
+    # time.time() advances it by one tick): remaining futures are cancelled
+    for mt in (6, 14, 22):
+        us.append(("pool", "grid6", "greedy+random", "flops",
+                   ((), reps, mt), tier, seed))
+        us.append(("pool", "ring5", "greedy+failing", "combo",
+                   (("reconf_opts",), reps, mt), tier, seed))
     us.sort(key=lambda u: u[0] != "pool")
     return us
 
 
-def make_opt(ms, mz, post, max_repeats, parallel, optlib="random"):
+class VirtualClock:
+    """own time.time() inside cotengra's hyper module: one tick per call"""
+
+    def __init__(self):
+        import importlib
+
+        self.hy = importlib.import_module("cotengra.hyperoptimizers.hyper")
+        self.real = self.hy.time
+        self.t = 0
+
+    def time(self):
+        self.t += 1
+        return float(self.t)
+
+    def __enter__(self):
+        self.hy.time = self
+        return self
+
+    def __exit__(self, *exc):
+        self.hy.time = self.real
+
+    def sleep(self, *_):
+        pass
+
+
+def make_opt(ms, mz, post, max_repeats, parallel, optlib="random",
+             max_time=None):
     import random
 
     import cotengra as ctg
@@ -136,7 +169,7 @@ def make_opt(ms, mz, post, max_repeats, parallel, optlib="random"):
     return ctg.HyperOptimizer(
         methods=METHOD_SETS[ms], minimize=mz, max_repeats=max_repeats,
         parallel=parallel, optlib=optlib, on_trial_error="ignore",
-        **kw, **okw)
+        max_time=max_time, **kw, **okw)
 
 
 def check_search(opt, tree, q, max_repeats, trials=None):
@@ -246,7 +279,8 @@ def work(unit):
                     "minimize": mz, "post_subsets": 16}, cap=1)
         return res
 
-    post, reps = extra
+    post, reps = extra[0], extra[1]
+    max_time = extra[2] if len(extra) > 2 else None
     # serial reference for the differential oracle
     ref_opt = make_opt(ms, mz, post, reps, False)
     ref_tree = ref_opt.search(*q)
@@ -259,8 +293,16 @@ def work(unit):
 
     def run(choices):
         pool = ctlpool.CtlPool(1, choices)
-        opt = make_opt(ms, mz, post, reps, pool)
-        tree = opt.search(*q)
+        opt = make_opt(ms, mz, post, reps, pool, max_time=max_time)
+        if max_time is None:
+            tree = opt.search(*q)
+        else:
+            with VirtualClock():
+                try:
+                    tree = opt.search(*q)
+                except KeyError:
+                    # stopped before any successful trial: nothing to return
+                    tree = None
         return pool, (opt, tree)
 
     norders = 0
@@ -269,6 +311,15 @@ def work(unit):
         res.evals += 1
         res.transitions += len(pool.completion_order)
         res.states += 1
+        if tree is None:
+            res.stat("stopped-before-first-success")
+            if any(math.isfinite(x) for x in opt.scores):
+                res.violation("hyper:no-tree-despite-finite-trial:pool",
+                              {"mode": "pool", "net": net, "methods": ms,
+                               "minimize": mz, "post": post,
+                               "max_repeats": reps, "max_time": max_time,
+                               "choices": choices}, list(opt.scores))
+            continue
         bad = check_search(opt, tree, q, reps, trials=pool.trials)
         if pool.submitted > reps:
             bad.append(("more-trials-submitted-than-requested",
@@ -277,7 +328,24 @@ def work(unit):
                 and pool.n_cancelled == 0:
             bad.append(("not-every-trial-consumed", pool.completion_order))
         got_ms = multiset(opt)
-        if got_ms != ref_ms:
+        if max_time is not None:
+            # early stop: the reported trials are a sub-multiset of the
+            # serial run's, and every unreported future was cancelled
+            rest = list(ref_ms)
+            for m in got_ms:
+                if m in rest:
+                    rest.remove(m)
+                else:
+                    bad.append(("reported-trial-not-in-serial-run", m))
+                    break
+            if len(pool.completion_order) + pool.n_cancelled != \
+                    pool.submitted:
+                bad.append(("future-neither-consumed-nor-cancelled",
+                            pool.submitted, len(pool.completion_order),
+                            pool.n_cancelled))
+            if len(opt.scores) < reps:
+                res.stat("stopped-early")
+        elif got_ms != ref_ms:
             bad.append(("trial-multiset-differs-from-serial-run",
                         got_ms[:3], ref_ms[:3]))
         if len({s for s in opt.scores}) > 1:
@@ -289,7 +357,7 @@ def work(unit):
                 f"hyper:{bad[0][0]}:pool", {
                     "mode": "pool", "net": net, "methods": ms,
                     "minimize": mz, "post": post, "max_repeats": reps,
-                    "choices": choices,
+                    "max_time": max_time, "choices": choices,
                     "completion_order": pool.completion_order}, bad[:3],
                 max_per_unit=2)
     res.stats[f"orders[{net},{ms},{mz}]"] = norders
@@ -309,8 +377,13 @@ def replay(case):
     if case["mode"] == "pool":
         pool = ctlpool.CtlPool(1, case["choices"])
         opt = make_opt(case["methods"], case["minimize"], post,
-                       case["max_repeats"], pool)
-        tree = opt.search(*q)
+                       case["max_repeats"], pool,
+                       max_time=case.get("max_time"))
+        if case.get("max_time") is None:
+            tree = opt.search(*q)
+        else:
+            with VirtualClock():
+                tree = opt.search(*q)
         bad = check_search(opt, tree, q, case["max_repeats"],
                            trials=pool.trials)
     else:
